@@ -361,6 +361,17 @@ func (c *cluster) callWith(n *cnode, kind string, fn func(r *raft.Raft) error) {
 		case o = <-done:
 		case <-time.After(20 * time.Second):
 			o = res{code: 10, resp: -1} // never resolved
+			if os.Getenv("VERIF_TRACE") != "" && (kind == "a" || kind == "m") {
+				buf := make([]byte, 64<<20)
+				buf = buf[:runtime.Stack(buf, true)]
+				var keep []string
+				for _, g := range strings.Split(string(buf), "\n\n") {
+					if strings.Contains(g, "leaderLoop") || strings.Contains(g, "leadershipTransfer") || strings.Contains(g, "runLeader") || strings.Contains(g, "runFollower") || strings.Contains(g, "runCandidate") {
+						keep = append(keep, g)
+					}
+				}
+				_ = os.WriteFile("/tmp/strand.log", []byte(strings.Join(keep, "\n\n")), 0o644)
+			}
 		}
 		c.h.rec("K %d %d %d %s %d %d %d %d %d %d", cid, n.id, life, kind, p, t0, c.h.now(), o.code, o.idx, o.resp)
 	}()
@@ -493,6 +504,14 @@ func runClusterCase(rng *rand.Rand, thorough bool, out *bufio.Writer, st *stats,
 		case x < 80: // crash / restart
 			n := c.nodes[1+rng.Intn(nsrv)]
 			if n.up && len(ups) > nsrv/2+1 || n.up && rng.Intn(4) == 0 {
+				if rng.Intn(2) == 0 { // calls racing the shutdown
+					for k := 0; k < 3; k++ {
+						c.apply(n, "v")
+					}
+					c.apply(n, "a")
+					c.callWith(n, "t", func(r *raft.Raft) error { return r.LeadershipTransfer().Error() })
+					st.Hist["calls-racing-shutdown"]++
+				}
 				c.crash(n)
 				st.Hist["crash"]++
 			} else if !n.up {
